@@ -129,6 +129,48 @@ def _drop_vacuous_guards(e, iv):
     return e
 
 
+def check_empty_diagram(project: Project, rep):
+    """AD-EMPTY (one diagram): the per-diagram routine evaluated on a diagram with no points must give zeros of shape
+    (birth pixels, persistence pixels) — the shape every other image of the collection has, so that images can be added"""
+    from ..core.values import DictV, FuncV
+    from .images_common import grid
+    fi = project.function(TR)
+    for skew in (True, False):
+        I = Interp(project, Config(nonempty={("rows", "Bg"), ("rows", "Pg")}, finite_inputs={"X", "bg", "pg"},
+                                   flags={"empty": {("rows", "X")}}))
+        res = Seq([Sc(sym.add(sym.Size(("rows", "Bg")), sym.Num(-1))), Sc(sym.add(sym.Size(("rows", "Pg")), sym.Num(-1)))], "tuple")
+        try:
+            r = I.run(TR, {"pers_dgm": dgm_input("X"), "skew": Sc(sym.Bool(skew)), "resolution": res, "weight": FuncV("opaque", "W"),
+                           "weight_params": DictV({}), "kernel": FuncV("opaque", "K"), "kernel_params": DictV({}),
+                           "_bpnts": grid("bg", "Bg"), "_ppnts": grid("pg", "Pg")})
+        except AnalysisError as ex:
+            rep.unmodelled("AD-EMPTY", fi, fi.node, f"empty diagram, skew={skew}: {ex}"[:160])
+            continue
+        if I.unmodelled or I.lossy or not isinstance(r, Arr) or r.ndim != 2:
+            rep.unmodelled("AD-EMPTY", fi, fi.node, f"empty diagram, skew={skew}: image not modelled ({r!r})"[:200])
+            continue
+        (s0, _), (s1, _) = r.axes
+        w0 = sym.add(sym.Size(("rows", "Bg")), sym.Num(-1))
+        w1 = sym.add(sym.Size(("rows", "Pg")), sym.Num(-1))
+        # the sum over the points of an empty diagram is empty; what is left must be zero
+        def _root(k_):
+            while isinstance(k_, tuple) and len(k_) >= 3 and k_[0] in ("sub", "slice"):
+                k_ = k_[1]
+            return k_
+        e0 = sym.subst(r.elem, {x: sym.ZERO for x in sym.walk(r.elem) if x[0] == "sum" and _root(x[2]) == ("rows", "X")})
+        if not (sym.equal(s0.size, w0) and sym.equal(s1.size, w1)):
+            rep.refuted("AD-EMPTY", fi, fi.node,
+                        f"a diagram with no points (skew={skew}) is imaged as an array of shape ({sym.show(s0.size)}, "
+                        f"{sym.show(s1.size)}) instead of (birth pixels, persistence pixels): it cannot be added to, or listed "
+                        f"with, the images of the other diagrams", construct=f"{TR}: image of an empty diagram")
+        elif e0 != sym.ZERO:
+            rep.refuted("AD-EMPTY", fi, fi.node, f"a diagram with no points (skew={skew}) is not imaged as zeros: {sym.show(e0)[:100]}",
+                        construct=f"{TR}: image of an empty diagram")
+        else:
+            rep.discharged("AD-EMPTY", fi, fi.node, f"a diagram with no points (skew={skew}) gives zeros of shape (birth pixels, "
+                                                    f"persistence pixels)")
+
+
 def _imager(project):
     I = Interp(project, Config())
     S = lambda n: Sc(sym.Sym(n))
@@ -522,6 +564,7 @@ def run(project: Project, rep, tier: str):
                                               f"grouping index without accumulating ({st_['accumulating_sites']} accumulating "
                                               f"site(s))", nontrivial=False)
     check_empty(project, rep)
+    check_empty_diagram(project, rep)
     check_par_wrap(project, rep)
     check_skew_equivalence(project, rep)
     from ..core.report import Report
